@@ -33,11 +33,17 @@ def run(patch, ids):
 def main():
     m = json.load(open(os.path.join(VERIF, 'MANIFEST.json')))
     ids = [c['property_id'] for c in m['checks']]
+    # MX_IDS="C03 C13": re-run only these properties and merge the cells into the stored matrix (after a change to
+    # their rules only); MX_ONLY="C03-11 ...": only these patches (new entries), all properties unless MX_IDS is set
+    only_ids = os.environ.get('MX_IDS', '').split()
+    only_pats = os.environ.get('MX_ONLY', '').split()
+    if only_ids: ids = [i for i in ids if i in only_ids]
     out = {}
     pats = sorted(glob.glob(os.path.join(VERIF, 'seeded/*/patch.diff')) + glob.glob(os.path.join(VERIF, 'seeded/*/patch.diff.gz'))) + sorted(glob.glob(os.path.join(VERIF, 'selftest/reverts/*.diff')))
     from concurrent.futures import ThreadPoolExecutor
     def name_of(p):
         return os.path.basename(os.path.dirname(p)) if (p.endswith('patch.diff') or p.endswith('patch.diff.gz')) else 'revert-' + os.path.basename(p)[:7]
+    if only_pats: pats = [p for p in pats if name_of(p) in only_pats]
     def one(p):
         c = run(p, ids)
         print(name_of(p), '->', 'PATCH FAILED' if c is None else (c if c else 'NOT CAUGHT'), flush=True)
@@ -45,5 +51,13 @@ def main():
     with ThreadPoolExecutor(max_workers=int(os.environ.get('MX_JOBS', '5'))) as ex:
         for n, c in ex.map(one, pats):
             out[n] = c
-    json.dump(out, open(os.path.join(VERIF, 'seeded/matrix.json'), 'w'), indent=1)
+    mp = os.path.join(VERIF, 'seeded/matrix.json')
+    if only_ids or only_pats:
+        old = json.load(open(mp))
+        for n, c in out.items():
+            if c is None: old[n] = None; continue
+            prev = {k: v for k, v in (old.get(n) or {}).items() if only_ids and k not in only_ids}
+            prev.update(c); old[n] = dict(sorted(prev.items()))
+        out = dict(sorted(old.items()))
+    json.dump(out, open(mp, 'w'), indent=1)
 main()
